@@ -32,7 +32,7 @@ Definition arm_of (o : binopc) : string :=
   | BVMod => "[x % y for x, y in zip(op1, op2)]"
   | BVLgAnd => "[1 if x and y else 0 for x, y in zip(op1, op2)]" | BVLgOr => "[1 if x or y else 0 for x, y in zip(op1, op2)]"
   | BVCmp c => "[1 if x " ++ cmp_py c ++ " y else 0 for x, y in zip(op1, op2)]"
-  | BVMulS => "[v * op2 for v in op1]" | BVDivS => "[v / op2 for v in op1]"
+  | BVMulS => "[v * op2 for v in op1]" | BVDivS => "STMT: if isinstance(instruction.Type.ElementType, LinearIR.IntegerType):     localScope[ref] = [-(abs(v) // abs(op2)) if (v < 0) != (op2 < 0) else abs(v) // abs(op2) for v in op1] else:     localScope[ref] = [v / op2 for v in op1]"
   | BMatMul => "self.__MatrixMatrixMultiply(instruction.Type.Shape, op1, op2)"
   | BOther _ => "Errors.ERROR_INTERNAL_COMPILER_ERROR.Raise(f'Unsupported binary operation: {operation}')"
   end.
